@@ -114,6 +114,8 @@ class C04(Prop):
                 c["family"] = kind + "_reuse"
             if kind == "int":     # integer-valued profiles in every integer encoding a caller may hold them in (IntegerValuationProfile)
                 c["itype"] = ["int64", None, "uint8", "int32", "uint16", None, "uint32", "int8", "uint64", "int16"][i % 10]
+            if kind == "nan_int" and i % 4 == 1 and "prelude" not in c:     # the same small integers (and NaN) in single / half precision
+                c["ftype"] = ["float32", "float16"][(i // 4) % 2]; c["family"] = kind + "_narrow_float"
             yield c
 
     def shrink(self, case):
@@ -129,7 +131,7 @@ class C04(Prop):
         if case.get("itype"):
             A = np.array(case["W"]).astype(int if case["itype"] is True else case["itype"])
         else:
-            A = lay(np.array([[np.nan if x is None else x for x in row] for row in case["W"]], dtype=float), case.get("layout"))
+            A = lay(np.array([[np.nan if x is None else x for x in row] for row in case["W"]], dtype=float).astype(case.get("ftype", "float64")), case.get("layout"))
         A0 = A.copy()
         def go():
             from socialchoicekit.profile_utils import IntegerValuationProfile
